@@ -65,10 +65,12 @@ var (
 func init() {
 	// init read-only commands map
 	for _, command := range []string{
-		"dump", "pttl", "sort", "ttl", "type", "exists",
-		// string & list & geo
+		// NOTE: sort is not listed, it writes when used with STORE and
+		// redis flags it as a write command, so replicas refuse it.
+		"dump", "pttl", "ttl", "type", "exists",
+		// string & list
 		"bitcount", "bitpos", "get", "getbit", "getrange", "strlen",
-		"lindex", "llen", "lrange", "geoadd",
+		"lindex", "llen", "lrange",
 		// hash
 		"hexists", "hget", "hgetall", "hkeys", "hlen", "hmget",
 		"hstrlen", "hvals", "hscan",
